@@ -253,7 +253,7 @@ def _seeds():
 
 
 def _strategy(ctx):
-    muts = st.lists(st.tuples(st.sampled_from(["del", "dup", "swap", "trunc", "insert", "edge", "unbalance"]), st.integers(0, 10 ** 6), st.integers(0, 10 ** 6)),
+    muts = st.lists(st.tuples(st.sampled_from(["del", "dup", "swap", "trunc", "insert", "edge", "unbalance", "repeat"]), st.integers(0, 10 ** 6), st.integers(0, 10 ** 6)),
                     min_size=0, max_size=4)
     dopt = st.one_of(st.none(), st.none(), st.sampled_from(DOPTS), st.text(alphabet="AB_(),=#. 1/\"'", min_size=1, max_size=8))
     return st.builds(lambda seed, muts, tool, cpp, d: {"seed": seed, "muts": muts, "tool": tool, "cpp": cpp, "dopt": d},
@@ -287,6 +287,11 @@ def materialise(case):
             toks.insert(i, PUNCT_INS[b % len(PUNCT_INS)])
         elif kind == "edge":
             toks.insert(i, b"\n" + EDGE[b % len(EDGE)] + b"\n")
+        elif kind == "repeat":
+            # a run of 1..3 tokens repeated many times: long chains and deep nesting (bounded by the 64 KB cut below)
+            w = 1 + b % 3
+            n = [40, 400, 3000][(b // 3) % 3]
+            toks[i:i + w] = toks[i:i + w] * n
         elif kind == "unbalance":
             toks = [t for k, t in enumerate(toks) if not (t in (b")", b"}", b"]") and k >= i)][:len(toks)]
     return b"".join(toks)[:65536]
